@@ -329,7 +329,7 @@ let () =
       | [ini; mx; nj] ->
         let initial = int_of_string ini and max = int_of_string mx and njobs = int_of_string nj in
         let maxn = nat_of_int max in
-        let s0 = PoolFacts.src_init (nat_of_int initial) maxn in
+        let s0 = PoolSrc.src_init (nat_of_int initial) maxn in
         let seen = Hashtbl.create 100000 in
         let q = Queue.create () in
         Hashtbl.replace seen s0 (); Queue.add (s0, []) q;
@@ -350,7 +350,7 @@ let () =
               evs := Pool.EDeq n :: Pool.EStart n :: Pool.EFinish n :: Pool.EIdle n :: !evs
             done;
             Stdlib.List.iter (fun e ->
-                match PoolFacts.src_step maxn s e with
+                match PoolSrc.src_step maxn s e with
                 | Some s1 ->
                   incr trans;
                   if not (Hashtbl.mem seen s1) then begin Hashtbl.replace seen s1 (); Queue.add (s1, e :: path) q end
@@ -365,7 +365,7 @@ let () =
   register "listen_model" (fun a ->
       match a with
       | idle :: stop :: evs ->
-        let c = PoolFacts.src_cfg (nat_of_int (int_of_string idle)) (stop = "1") in
+        let c = PoolSrc.src_cfg (nat_of_int (int_of_string idle)) (stop = "1") in
         let es = Stdlib.List.map (fun t ->
             if t.[0] = 't' then Listen.Tick (t.[1] = '1', nat_of_int (int_of_string (String.sub t 2 (String.length t - 2))))
             else Listen.Acc (t.[1] = '1')) evs in
